@@ -384,6 +384,19 @@ def run(ctx):
            key="R16.9:%s" % (bad9[0]["pair"].split(":")[0].split(" ")[0] if bad9 else ""),
            what="%s" % ("; ".join("%s: eq=%s cmp=%s (expected eq=%s, sign %s)" % (b_["pair"], b_["eq"], b_["cmp"], b_["expected"]["eq"], b_["expected"]["cmp_sign"]) for b_ in bad9[:3])))
 
+    # ---- R16.10: the element of an arithmetic range, in the width of its type
+    ctx.rule("R16.10", "RANGE-ELEMENT: rtosc_arg_val_range_arg - what the range-aware iterator hands out for the i-th element of `start, delta` - evaluated as a whole function (the arithmetic helpers of arg-val-math.c in place) on 'i' and 'h' ranges "
+             "whose start, step and products need the full width of the type, is start + i*delta in that type's arithmetic (64 bits for 'h'): a compressed list compares and expands like the list it stands for")
+    from ..rules import rangearg as RA
+    um10 = ctx.ast("arg-val-math.c")
+    try:
+        bad10, n10 = RA.check(um10)
+    except FD.Unknown as e:
+        raise AnalysisBroken("R16.10: rtosc_arg_val_range_arg is not evaluable: %s" % e)
+    ctx.ob("R16.10", "rtosc_arg_val_range_arg", not bad10, site=A.where(um10.function("rtosc_arg_val_range_arg")), detail={"ranges": n10, "mismatches": bad10[:4]},
+           key="R16.10:%s" % (bad10[0]["type"] if bad10 else ""),
+           what="rtosc_arg_val_range_arg does not compute start + i*delta in the range's own type: %s" % bad10[:3])
+
     # ---- R16.3
     bad = []
     pairs = [("i", 1, "f", 1.0), ("s", "a", "S", "a"), ("T", 1, "F", 0), ("h", 1, "i", 1), ("b", b"", "s", "")]
